@@ -192,6 +192,10 @@ class DramRef:
     def push_request(self, rank, bank, we, row, col, tag):
         self.reqq.setdefault((rank, bank), []).append((we, row, col, tag))
 
+    def busy(self):
+        """Requests accepted at the crossbar whose column command has not appeared on the DFI bus yet, or data still in flight."""
+        return bool(self.wq) or bool(self.rq) or any(self.reqq.values())
+
     def default_word(self, key):
         if self.default_fn is not None:
             return self.default_fn(key)
